@@ -400,3 +400,10 @@ package q
 //@   oncall reflect.AppendSlice check onto-result: arg0 == slice
 //@   oncall reflect.AppendSlice do nApp = nApp + 1
 //@   loop 1 iter each-argument: nApp - old(nApp) == 1
+
+// C15: whatever an accessor does (a method called through reflection, a field
+// read), a panic is turned into an evaluation error: evaluateAccessor installs
+// its recover before anything else.
+//@ func AccessorExpr.evaluateAccessor
+//@   props C15
+//@   recovers
